@@ -444,6 +444,8 @@ impl PersistBackend for FilePersist {
                     // Data WILL be lost on crash. Only use for ephemeral/reproducible data.
                 }
             }
+            #[cfg(feature = "verif-hooks")]
+            vh::yield_point("persist.append.wal_written");
 
             // Add to buffer
             let state = shards
